@@ -27,7 +27,7 @@ ASSUMPTIONS = ["a sub-daily reading covers its nominal interval (15/30/60 min), 
                "billing reads are monthly when the median period is <= 35 days, else bi-monthly"]
 REQUIRED_REACH = {"dataset.judged": 40, "billing.periods_judged": 100, "billing.offcycle_periods": 5, "subdaily.days_judged": 1000, "subdaily.full_days": 800,
                   "subdaily.partial_days_over_half": 10, "subdaily.days_half_or_less": 10, "subdaily.dst_days": 5, "post.as_freq_cumulative": 30,
-                  "post.clean_billing_data": 10}
+                  "post.clean_billing_data": 10, "subdaily.series_starting_midday": 6}
 
 VIOL = []
 
@@ -228,13 +228,24 @@ def subdaily_case(spec, rng, keys):
             mask[day_id == d] = True
     elif pat == "zeros":
         v[rng.random(len(idx)) < 0.03] = 0.0
-    mask[0] = mask[-1] = False
+    if spec.get("start_offset_frac") and minutes < 1440:
+        # the series starts part-way through its first local day (aligned to the reading interval, not to midnight)
+        first = np.flatnonzero(day_id == 0)
+        k0 = int(len(first) * spec["start_offset_frac"])
+        mask[first[:k0]] = True
+        lead = k0
+    else:
+        lead = 0
+    mask[lead] = False
+    mask[-1] = False
     if minutes >= 1440:
         mask[:] = False if pat not in ("isolated", "runs", "whole_days") else mask
     absent = spec["gap_kind"] == "absent"
     meter = pd.Series(np.where(mask, np.nan, v), index=idx, name="value")
     if absent:
         meter = meter[~mask]
+    elif lead:
+        meter = meter.iloc[lead:]                                  # the leading part of the first day is simply not there
     temp = hourly_temp(tz, t0, t1, rng)
     tag = {k: spec[k] for k in ("tz", "minutes", "pattern", "gap_kind", "entry", "start", "days")}
     electric = True
@@ -253,6 +264,8 @@ def subdaily_case(spec, rng, keys):
         add("constructor-raised:daily:%s:%s:%dmin" % (type(e).__name__, tb[-1].name, minutes), "daily %s entry with %d-minute readings raised %s: %s" % (spec["entry"], minutes, type(e).__name__, str(e)[:160]), **tag)
         return 1
     I.reach("dataset.judged")
+    if spec.get("start_offset_frac"):
+        I.reach("subdaily.series_starting_midday")
     out = data.df
     if "observed" not in out.columns:
         add("usage-column-dropped", "data.df has no observed column", **tag)
@@ -302,7 +315,12 @@ def subdaily_case(spec, rng, keys):
         conserved = abs(total_got - total_metered) <= 1e-6 * max(1.0, total_metered) + 60.0 * 2      # edge readings next to the excluded final day
         d = mism[0]
         g, exp, n_ok, exp_n, s = per_day[d]
-        if minutes < 1440 and gap_days and only_near_gaps and conserved:
+        leading = bool(lead) and 0 in mism          # a first day that is only partly spanned has no reading before its gap: not the recorded mechanism
+        if leading:
+            g, exp, n_ok, exp_n, s_ = per_day[0]
+            add("daily-usage-differs-from-interval-arithmetic:%dmin:first-day-partly-spanned" % minutes,
+                "series starts part-way through its first local day (%d of %d readings): data.df holds %r, expected %r (sum %g)" % (n_ok, exp_n, g, exp, s_), **tag)
+        elif minutes < 1440 and gap_days and only_near_gaps and conserved:
             add("sub-daily-gap-not-detected-reading-before-the-gap-spread-over-it:%s" % spec["gap_kind"],
                 "%d days differ, all at or next to days with missing readings; e.g. local day %s holds %r, expected %r (%d of %d readings present, sum %g): the coverage rule never fires, "
                 "the metered total is kept (%g vs %g)" % (len(mism), d0[d].date(), g, exp, n_ok, exp_n, s, total_got, total_metered), n_days=len(mism), **tag)
@@ -341,5 +359,11 @@ def gen_cases(tier, seed):
         start = str(rng.choice(["2019-03-01", "2019-10-20", "2020-03-20", "2019-09-25"])) if rng.random() < 0.5 else str((pd.Timestamp("2019-01-01") + pd.Timedelta(days=int(rng.integers(0, 700)))).date())
         cases.append(dict(kind="subdaily", tz=zones[i % (5 if q else len(zones))], minutes=minutes, pattern=pats[(i // 2) % len(pats)] if minutes < 1440 else ["none", "isolated", "zeros"][i % 3],
                           gap_kind="nan" if i % 2 else "absent", entry="series" if i % 3 else "frame", start=start, days=int(rng.choice([20, 35, 50])), n=k))
+        k += 1
+    for i in range(12 if q else 150):
+        minutes = [60, 15, 30][i % 3]
+        cases.append(dict(kind="subdaily", tz=zones[i % (5 if q else len(zones))], minutes=minutes, pattern="none", gap_kind="nan" if i % 2 else "absent", entry="series" if i % 2 else "frame",
+                          start=str((pd.Timestamp("2019-01-01") + pd.Timedelta(days=int(rng.integers(0, 700)))).date()), days=int(rng.choice([12, 20])),
+                          start_offset_frac=[0.25, 0.5, 0.27, 0.75, 0.4, 0.6][i % 6], n=k))
         k += 1
     return cases
